@@ -806,7 +806,7 @@ register("lfht", {
               K("repl", "lf", ["*"], _lfht_lf, when='op[t].op = "repl"', apis=["replace"])],
     "tlc": {"quick": ["solo_lfht_del", "solo_lfht_repl", "solo_lfht_addr"],
             "thorough": ["solo_lfht_del", "solo_lfht_repl", "solo_lfht_addr", "lfht_grow", "lfht_uniq", "lfht_adl", "lfht_trav", "lfht_repl_lookup", "lfht_2del"]},
-    "bind": {"quick": ["solo_lfht_del", "solo_lfht_repl", "solo_lfht_addr"],
+    "bind": {"quick": ["solo_lfht_del", "solo_lfht_repl", "solo_lfht_addr", "lfht_repl_add"],       # lfht_repl_add: a replace whose cmpxchg fails on a changed successor must retry and finish alone
              "thorough": ["solo_lfht_del", "solo_lfht_repl", "solo_lfht_addr", "lfht_uniq", "lfht_adl", "lfht_trav", "lfht_repl_lookup", "lfht_2del", "lfht_grow", "lfht_shrink"]},
     # a remover suspended after the logical delete (REMOVED set) and before the unlink; a replace suspended before the unlink of the old node
     "witnesses": {"solo_lfht_del": [("del_flagged_not_unlinked", 'pc[t] = "c_ldb" /\\ gcret[t] = "del"', False)],
